@@ -12,6 +12,7 @@ R-C12-8  names derived from the per-context counters are unique (every use consu
 R-C12-7  block members are unit wires: the re-allocation bypass constrains length *and* coefficient
 """
 import ast
+import re
 
 from ..cfg import CFG, calls_in, own_stmt_part
 from ..loader import norm, AnalysisError, parents
@@ -435,6 +436,55 @@ def rule_glue(repo, rule):
                and isinstance(c.args[0], ast.Tuple) and len(c.args[0].elts) == 2]
         if not alloc or not app:
             continue
+        if len(alloc) > 1 and len(app) == 1:
+            # a copy helper that handles several kinds of wire-carrying values (LinComb, LinCombBool, LinCombFxp): judged path by
+            # path.  On each path exactly one fresh wire is allocated, hinted with the value of the operand's own wire W (the
+            # operand itself or its .lc); the pair appended is (W, fresh) or (fresh, W) - the same way round on every path;
+            # what is returned is the fresh wire or a wrapper of the operand's type around it that adds no constraint.
+            from ..hints import paths_to as _pt12
+            orders, problems_ = set(), []
+            for pth in _pt12(f.node, app[0]):
+                envp = {}
+                fresh = None
+                for st in pth.steps:
+                    if st[0] != "assign":
+                        continue
+                    envp[st[1]] = st[2]
+                    if isinstance(st[2], ast.Call) and norm(st[2].func).endswith("PrivVal"):
+                        if fresh is not None:
+                            problems_.append("two wires allocated on one path")
+                        fresh = (st[1], st[2])
+
+                def res(e, depth=0):
+                    while isinstance(e, ast.Name) and e.id in envp and depth < 6 and not (fresh and e.id == fresh[0]):
+                        e = envp[e.id]
+                        depth += 1
+                    return e
+                a0, a1 = (res(x) for x in app[0].args[0].elts)
+                if fresh is None:
+                    problems_.append("no wire allocated on a path that records a pair")
+                    continue
+                hint = norm(fresh[1].args[0]) if fresh[1].args else ""
+                sides = [norm(a0), norm(a1)]
+                if fresh[0] not in sides:
+                    problems_.append("the pair does not contain the fresh wire")
+                    continue
+                w = sides[1 - sides.index(fresh[0])]
+                if w not in (p, "%s.lc" % p):
+                    problems_.append("the pair ties the copy to `%s`, not to the operand's wire" % w)
+                if hint != "%s.value" % w:
+                    problems_.append("the copy is hinted with `%s`, not with the value of `%s`" % (hint, w))
+                orders.add(("orig", "copy") if sides.index(fresh[0]) == 1 else ("copy", "orig"))
+            lst = norm(app[0].func.value)
+            same_val = not problems_ and len(orders) == 1
+            if same_val:
+                rule.ok(f.loc(), f.fq, "%d kinds of operand: fresh wire hinted with the operand wire's value, paired %s" % (
+                    len(alloc), "/".join(next(iter(orders)))), "copy is hinted with the original's value (every path)")
+                info[name] = (f, "orig", "copy", next(iter(orders)), True, lst)
+            else:
+                rule.violation(f.loc(), f.fq, "; ".join(sorted(set(problems_)) or ["pairs are appended in different orders on different paths"]),
+                               "the copy in the other context does not carry the original's value", "glue/value/%s" % name)
+            continue
         a = alloc[0]
         same_val = a.value.args and norm(a.value.args[0]) == "%s.value" % p
         ret = norm(a.targets[0])
@@ -452,7 +502,18 @@ def rule_glue(repo, rule):
     uses = {}
     for n in ast.walk(sub.node):
         if isinstance(n, ast.Call) and norm(n.func) == "for_each_in" and len(n.args) == 3 and norm(n.args[1]) in info:
-            uses[norm(n.args[1])] = (n, norm(n.args[2]))
+            src = norm(n.args[2])
+            # the arguments may reach the copy helper through a bound signature:
+            #   bound = sig.bind(*args, **kwargs);  for name, val in bound.arguments.items(): ... for_each_in(C, copy, val)
+            for lp_ in [p_ for p_ in parents(n) if isinstance(p_, ast.For)]:
+                tn = {x.id for x in ast.walk(lp_.target) if isinstance(x, ast.Name)}
+                it_ = norm(lp_.iter)
+                mm = re.match(r"^(?:list\()?(\w+)\.arguments\.items\(\)\)?$", it_)
+                if src in tn and mm:
+                    bdef = [a_ for a_ in ast.walk(sub.node) if isinstance(a_, ast.Assign) and len(a_.targets) == 1 and norm(a_.targets[0]) == mm.group(1)]
+                    if len(bdef) == 1 and re.match(r"^\w+\.bind\(\*args(, \*\*kwargs)?\)$", norm(bdef[0].value)):
+                        src = "args"
+            uses[norm(n.args[1])] = (n, src)
     if not info:
         # second way of writing it: the copies are made by a pure copy function, and the pairs are formed afterwards by
         # walking the original and the copied structure side by side:  zip(T(x), T(for_each_in(C, copy, x)))
@@ -519,6 +580,12 @@ def rule_glue(repo, rule):
     dom = cfg.dominators()
 
     def node_of(call):
+        # a copy made inside a loop over the (possibly empty) collection of arguments is ordered by its loop
+        loops_ = [p_ for p_ in parents(call) if isinstance(p_, ast.For) and _owner(p_) is sub.node]
+        if loops_:
+            for n in range(cfg.n):
+                if cfg.stmt[n] is loops_[-1] and cfg.kind[n] == "loop":
+                    return n
         for n in range(cfg.n):
             st = cfg.stmt[n]
             if st is not None and call in calls_in(own_stmt_part(st, cfg.kind[n])):
